@@ -262,8 +262,30 @@ func checkC14(c *h.Check) {
 		n2["fA"], n2["fB"] = "New", "New"
 		add("C14/samepkg="+nm+"/sametypes", n2, 0)
 	}
+	// parameter lists whose names interact with each other: a blank parameter whose derived name is the name the user
+	// gave to a later (or earlier) one; a parameter renamed because of a package-level name next to one the user
+	// called by that second choice
+	paramPairs := 0
+	for i, pr := range [][3]string{{"_", "argT", ""}, {"argT", "_", ""}, {"_", "argU", ""}, {"argU", "_", ""}, {"arg0", "arg02", "arg0"}, {"arg02", "arg0", "arg0"}, {"_", "argT2", "argT"}, {"argT2", "_", "argT"}} {
+		for dk := 0; dk < 2; dk++ {
+			n := map[string]string{}
+			for k, v := range neutral {
+				n[k] = v
+			}
+			n["param0"], n["param1"], n["decl"] = pr[0], pr[1], pr[2]
+			if pr[2] == "" && dk == 1 {
+				continue
+			}
+			before := len(cases)
+			add(fmt.Sprintf("C14/param-pairs/%d/declkind=%d", i, dk), n, dk)
+			paramPairs += len(cases) - before
+		}
+	}
+	if c.Only == "" && paramPairs < 8 {
+		c.Internalf("vacuous: only %d parameter-pair namings are expressible", paramPairs)
+	}
 	results := c.JudgeAll(cases)
-	stdCoverage(c, cases, results, fmt.Sprintf("a fixed rich program (two imported packages, error+cleanup chain across packages, struct provider, value, two injector parameters, a named set, two injectors) whose %d nameable entities (package names, type names in three packages, provider names, field names, parameter names incl. blank and absent, set variable, an extra package-level var/func/type/const) are each renamed to every name of an adversarial pool (err, err2, cleanup, cleanupN, the first and second choice wire derives for each local, import names and name2, _wire<T>Value(2), type names that unexport to keywords and predeclared identifiers, numeric-suffix families, non-ASCII, UPPERWord); deviation bound %d (pairs: quick over the names wire itself invents - err, err2, cleanup, cleanup2 and their exported forms; thorough over all collision-relevant names); plus both imported packages under one package name with same-named types and providers. Namings under which the user's own program would not compile (redeclarations) are predicted and skipped. Oracle (differential against the name-independent model): accepted, compiles, and every scenario incl. every failure point wires, unwinds and returns exactly as under the neutral naming. Distinct = distinct rendered source.", len(c14Entities), bound))
+	stdCoverage(c, cases, results, fmt.Sprintf("parameter pairs whose chosen and derived names meet (blank next to the name wire derives for it, a renamed parameter next to its second choice); a fixed rich program (two imported packages, error+cleanup chain across packages, struct provider, value, two injector parameters, a named set, two injectors) whose %d nameable entities (package names, type names in three packages, provider names, field names, parameter names incl. blank and absent, set variable, an extra package-level var/func/type/const) are each renamed to every name of an adversarial pool (err, err2, cleanup, cleanupN, the first and second choice wire derives for each local, import names and name2, _wire<T>Value(2), type names that unexport to keywords and predeclared identifiers, numeric-suffix families, non-ASCII, UPPERWord); deviation bound %d (pairs: quick over the names wire itself invents - err, err2, cleanup, cleanup2 and their exported forms; thorough over all collision-relevant names); plus both imported packages under one package name with same-named types and providers. Namings under which the user's own program would not compile (redeclarations) are predicted and skipped. Oracle (differential against the name-independent model): accepted, compiles, and every scenario incl. every failure point wires, unwinds and returns exactly as under the neutral naming. Distinct = distinct rendered source.", len(c14Entities), bound))
 	c.Coverage["skipped_illtyped"] = skipped
 	c.Coverage["explorer"] = map[string]interface{}{"executions": st.Executions, "bound": bound}
 	sampleCase(c, cases, results)
